@@ -97,15 +97,16 @@ class DeleteAu(Automaton):
         sec, nres, nxt, inv, ndec, zero, cur, clr, fl = q
         defs = self._defs(f)
         e = F.expr(f, defs, t['discr'])
-        if e[0] == 'binop' and e[1] in ('Le', 'Eq', 'Lt') and e[3][0] == 'const':
+        if e[0] == 'binop' and e[1] in ('Le', 'Eq', 'Lt', 'Ne', 'Gt', 'Ge') and e[3][0] == 'const':
             rs = F.roots(f, defs, t['discr'])
             if any(r[0] == 'call' and r[1].endswith('::rrcount_dec') for r in rs) or (e[2][0] == 'load' and any(r[0] == 'call' and r[1].endswith('::rrcount_dec') for r in F.roots_place(f, defs, e[2][1]))):
-                bound = e[3][1] + (1 if e[1] == 'Lt' else 0)  # count <= 0  /  count == 0  /  count < 1
-                is_zero_test = (e[1] in ('Le', 'Eq') and e[3][1] == 0) or (e[1] == 'Lt' and e[3][1] == 1)
+                # the count is unsigned: `== 0`, `<= 0`, `< 1` are true, and `!= 0`, `> 0`, `>= 1` false, exactly when it reached zero
+                zero_when = {('Eq', 0): True, ('Le', 0): True, ('Lt', 1): True, ('Ne', 0): False, ('Gt', 0): False, ('Ge', 1): False}.get((e[1], e[3][1]))
                 truth = (value != 0) if value is not None else all(v == 0 for v, _ in t['targets'])
-                if not is_zero_test:
+                if zero_when is None:
                     fl = fl | {'offset-clear-condition-is-not-count-reached-zero'}
-                return (sec, nres, nxt, inv, ndec, truth, cur, clr, fl)
+                    return (sec, nres, nxt, inv, ndec, truth, cur, clr, fl)
+                return (sec, nres, nxt, inv, ndec, truth == zero_when, cur, clr, fl)
         if e[0] == 'discr':
             rs = F.roots_place(f, defs, e[1])
             if any(r[0] == 'call' and r[1].endswith('::current_section') for r in rs) and zero is not None:
